@@ -579,6 +579,10 @@ def corpus_cases(prop, restart):
     add({1: D(a=D(0o755, None, f=Fi())), 2: D(a=D(0o755, None, g=Fi()), h=('l', b'a'))},
         [{'k': 'mkdir', 'p': 'x', 'mode': 0o755}, {'k': 'unlink', 'p': 'a/f'}, {'k': 'write', 'p': 'a/g', 'off': 0, 'data': b'Z'}, {'k': 'setxattr', 'p': 'a', 'name': 'user.k1', 'val': b'p'},
          {'k': 'chmod', 'p': 'a/f', 'mode': 0o600}, {'k': 'read', 'p': 'a/g', 'off': 0, 'len': 8}, {'k': 'open', 'p': 'a/f', 'fl': 'wt'}, {'k': 'rmdir', 'p': 'a'}], upper=False)
+    if prop == 'C11':
+        # a client sets one of the overlay's own opaque markers on a merged directory (known finding client-sets-opaque-marker)
+        add({0: D(d=D(0o755, None, n=Fi(b'n'))), 1: D(d=D(0o755, None, o=Fi(b'o')))},
+            [{'k': 'readdir', 'p': 'd'}, {'k': 'setxattr', 'p': 'd', 'name': 'user.overlay.opaque', 'val': b'y'}, {'k': 'readdir', 'p': 'd'}])
     return cs
 
 def pattern_cases(restart, full=False):
